@@ -107,6 +107,8 @@ func (c Conf) limitAt(point string) int {
 		return c.headerEff()
 	case "writing":
 		return c.L.Write
+	case "body": // the whole-request deadline, counted from the first byte of the head
+		return c.L.Read
 	}
 	return 0
 }
@@ -793,6 +795,8 @@ func phaseOfPoint(point string) string {
 		return "mitmHandshake"
 	case "writing":
 		return "writing"
+	case "body":
+		return "body"
 	}
 	return "?"
 }
